@@ -432,6 +432,15 @@ fn c11_pass(sink: &mut Sink, rng: &mut Rng, thorough: bool) {
         Err(e) => format!("err {}", e),
       }));
       sink.count("direct:st-json");
+      // tie to the text model: the JSON document reduced to the 't.. s..' ASCII document (white space removed;
+      // "t": -> t, "s": -> s; quotes, braces, brackets dropped; ':' -> '/', ',' -> ' '), read by the model's ST reader
+      {
+        let compact: String = t.chars().filter(|c| !c.is_whitespace()).collect();
+        let compact = compact.replace("\"t\":", "t").replace("\"s\":", "s");
+        let norm: String = compact.chars().filter_map(|c| match c { '{' | '}' | '[' | ']' | '"' => None, ':' => Some('/'), ',' => Some(' '), c => Some(c) }).collect();
+        let hx: String = norm.as_bytes().iter().map(|b| format!("{:02x}", b)).collect();
+        sink.emit(&format!("st_ascii_dec 64 {}", hx), &a, nontrivial);
+      }
       if a != expect {
         sink.impl_failures.push(format!("st-json-roundtrip: {} -> {}", expect, a));
       }
